@@ -132,6 +132,7 @@ type RunSpec struct {
 	Reach    []string `json:"reach,omitempty"`
 	Bounds   string   `json:"bounds,omitempty"`
 	Raw      bool     `json:"raw,omitempty"`
+	Solver   string   `json:"solver,omitempty"` // overrides the default solver for this run (cross-solver runs)
 	FreeSw   int      `json:"free_switches,omitempty"` // 0: unbounded; n>0: at most n non-default choices when a goroutine blocks
 }
 
@@ -187,6 +188,9 @@ func parseArgs(fn *ssa.Function, args []string, tc *TermCtx) ([]Value, error) {
 
 func runHarness(p *Program, spec RunSpec, solverKind string, workers int, seed int64) *RunResult {
 	t0 := time.Now()
+	if spec.Solver != "" {
+		solverKind = spec.Solver
+	}
 	if spec.TimeoutS == 0 {
 		spec.TimeoutS = 600
 	}
